@@ -1,6 +1,34 @@
-//! Correspondence harness for the account-validation properties C08 and C09.
+//! Correspondence harness for the account-validation property C09.
 mod c09;
 pub mod progs;
+mod spec;
+
+/// Cases of `/verif/corpus/<prop>/*.replay` (run first on every check).
+pub fn corpus_cases(prop: &str) -> Vec<Vec<String>> {
+    let dir = std::path::PathBuf::from(std::env::var("VERIF_DIR").unwrap_or_else(|_| "/verif".into())).join("corpus").join(prop);
+    let mut files: Vec<_> = match std::fs::read_dir(&dir) {
+        Ok(rd) => rd.filter_map(|e| e.ok()).map(|e| e.path()).filter(|p| p.extension().map(|x| x == "replay").unwrap_or(false)).collect(),
+        Err(_) => return vec![],
+    };
+    files.sort();
+    let mut cases: Vec<Vec<String>> = vec![];
+    for f in files {
+        for l in std::fs::read_to_string(&f).unwrap_or_default().lines() {
+            let l = l.trim_end();
+            if l.is_empty() || l.starts_with('#') {
+                continue;
+            }
+            if l.starts_with("case") || cases.is_empty() {
+                cases.push(vec![]);
+                if !l.starts_with("case") {
+                    cases.last_mut().unwrap().push("case".to_string());
+                }
+            }
+            cases.last_mut().unwrap().push(l.to_string());
+        }
+    }
+    cases
+}
 
 fn main() {
     let args = hx_common::Args::parse();
